@@ -6,7 +6,7 @@
 (* them on recorded events; the MC_* models evaluate the same operators on *)
 (* exhaustive small scopes.                                                *)
 (***************************************************************************)
-EXTENDS Wide, Rounding, Text, Exp, FiniteSets
+EXTENDS Wide, Rounding, Text, Exp, Floats, FiniteSets
 
 OK == <<"ok">>
 Bad(why) == <<"bad", why>>
@@ -361,4 +361,37 @@ ExpOK(x, P, r) ==
        IF x.d = <<>> THEN Chk(ValEq(y, DOne), "exp-of-zero-is-one")
        ELSE IF y.s # 1 THEN Bad("not-strictly-positive")
        ELSE Chk(ExpWithinOneUlp(x, P, y), "more-than-one-ulp-off")
+
+\* ---------------------------------------------------------------- C14: binary floats
+\* float -> decimal: exactly the binary value; NaN and infinities are errors
+FromFloatOK(bits, w, r) ==
+  IF ~IsFiniteF(bits, w) THEN Chk(IsErr(r) \/ IsNone(r), "nan-or-infinity-must-be-an-error")
+  ELSE ValIs(r, FloatValue(bits, w))
+\* decimal -> f64
+ToFloatOK(x, r) ==
+  IF "bits" \notin DOMAIN r THEN Bad("outcome-kind") ELSE Chk(ToF64OK(x, ZOf(r.bits).m), "to_f64")
+\* float -> decimal -> f64 returns the identical float (-0.0 comes back as 0.0; a binary32 as the same value)
+FloatRoundTripOK(bits, w, r) ==
+  IF ~IsFiniteF(bits, w) THEN Chk(IsErr(r) \/ IsNone(r), "nan-or-infinity-must-be-an-error")
+  ELSE IF "bits" \notin DOMAIN r THEN Bad("outcome-kind")
+  ELSE LET out == ZOf(r.bits).m
+           f == Fields(bits, w)
+           isZero == f[2] = 0 /\ f[3] = <<>>
+       IN IF isZero THEN Chk(out = <<>>, "zero-round-trip")
+          ELSE IF w = 64 \/ "out32" \in DOMAIN r THEN Chk(out = bits, "round-trip-not-identical")
+          ELSE \* a binary32 read back as binary64: the same value
+               IF f[2] # 0                                      \* normal binary32: re-biased exponent, mantissa shifted by 29 bits
+               THEN Chk(Fields(out, 64) = <<f[1], f[2] - 127 + 1023, NMul(f[3], P2(29))>>, "round-trip-not-identical")
+               ELSE Chk(IsFiniteF(out, 64) /\ ValEq(FloatValue(out, 64), FloatValue(bits, 32)), "round-trip-not-identical")
+
+\* ---------------------------------------------------------------- C15: integer conversions
+TruncToInt(x) == ZMk(x.s, IF x.sc <= 0 THEN Shl(x.d, -x.sc) ELSE Shr(x.d, x.sc))
+ToIntOK(ty, x, r) ==
+  LET t == TruncToInt(x)
+      fits == IF ty = "bigint" THEN TRUE
+              ELSE IF ty \in {"u64", "u128"} /\ x.s < 0 THEN FALSE      \* a negative decimal never converts to an unsigned type
+              ELSE ZLe(TypeMin(ty), t) /\ ZLe(t, TypeMax(ty))
+  IN IF fits THEN BigIs(r, t) ELSE Chk(IsNone(r), "out-of-range-must-be-none")
+IsIntegerOK(x, r) == BoolIs(r, x.sc <= 0 \/ LowAllZero(x.d, x.sc))
+FromIntOK(v, r) == RepIs(r, Mk(v.s, v.m, 0))
 =============================================================================
